@@ -117,6 +117,10 @@ def _bindir():
 
 def build_harness(race=False, tags="verif"):
     """go build the vdriver against REPO's current working tree. Returns the binary path."""
+    if os.environ.get("VERIF_COVER_BINARY") and not race and tags == "verif":
+        # tools/covreport: a coverage-instrumented driver built inside a scratch worktree of the repository (Go only
+        # instruments packages of the main module), to see which code the real-code sides of the checks execute
+        return os.environ["VERIF_COVER_BINARY"]
     mod = _modfile()
     out = os.path.join(_bindir(), "vdriver" + ("-race" if race else "") + ("" if tags == "verif" else "-" + (tags or "notag")))
     cmd = ["go", "build", "-modfile=" + mod, "-o", out]
@@ -157,6 +161,8 @@ def run_driver(binary, args, timeout=3600, env=None, stdout_path=None, check=Tru
     e = dict(os.environ)
     e["VERIF_SEED"] = str(seed())
     e["VERIF_REPO_PATH"] = REPO
+    if os.environ.get("VERIF_COVERDIR"):
+        e["GOCOVERDIR"] = os.environ["VERIF_COVERDIR"]
     if fast_tmp():
         e["TMPDIR"] = fast_tmp()
     if env:
